@@ -209,6 +209,13 @@ def shard(ctx):
                 for k in range(N):
                     envspec = ENVS[(k + t + 3 * ctx.shard) % len(ENVS)]
                     cwd = sdir if k % 2 == 0 else alt_cwd
+                    # the files are "saved again" in another order before every run: same names, same bytes, other modification times
+                    # (no mode here asks for --last-modified ordering)
+                    for sub in ("d", "tf", "t", os.path.join("t", "tests")):
+                        names_ = sorted(x for x in os.listdir(os.path.join(sdir, sub)) if os.path.isfile(os.path.join(sdir, sub, x)))
+                        order_ = names_ if k % 3 == 0 else (names_[::-1] if k % 3 == 1 else names_[1:] + names_[:1])
+                        for pos_, x in enumerate(order_):
+                            os.utime(os.path.join(sdir, sub, x), (1700000000 + 1000 * pos_, 1700000000 + 1000 * pos_))
                     try:
                         if "{OUT}" in argv:
                             # --output <file>: the bytes left in the file are the output; what the file held before must not matter
